@@ -747,9 +747,14 @@ def run(ctx):
     ctx.attempt(trr_byte_order, ctx)
     ctx.rule("R-13.11", "the TRR reader never resumes from inside a frame: the wait for a data block whose header was consumed is left without the data only after stop_read was set", floor=1)
     ctx.attempt(no_midframe_resume, ctx)
+    ctx.rule("R-13.12", "the on-the-fly text readers classify a line as complete by the layout the writer produces (box lines with 2 or 3 columns, 9 header lines, 9 atom columns): shared with C19 R-19.3", floor=3)
+    from . import c19 as _c19
+    from .shared import RuleProxy as _RP13
+    ctx.attempt(_c19.r193, _RP13(ctx, "R-13.12", " (complete lines of a legal dump layout are taken for partial writes: the reader returns early at every poll, the position never advances and no frame is ever returned)"))
 
 
 VARIANTS = [
+    B("c13-lammps-box-line-two-columns-only", ENGPARTS, "            if n_box_cols not in [2, 3] or line[-1] != \"\\n\":", "            if n_box_cols != 2 or line[-1] != \"\\n\":", "R-13.12", control=True, why="seeded C13_m"),
     B("c13-trr-data-wait-left-without-stop", GROMACS, "                                    self.stop_read = True\n                                    break\n", "                                    break\n", "R-13.11", control=True, why="seeded C13_l"),
     B("c13-trr-swap-only-when-unrecognised", GROMACS, "        if not magic == _GROMACS_MAGIC:\n            logger.critical(\n                \"TRR file might be inconsistent! Could find _GROMACS_MAGIC\"\n            )\n        endian = swap_endian(endian)\n", "        if not magic == _GROMACS_MAGIC:\n            logger.critical(\n                \"TRR file might be inconsistent! Could find _GROMACS_MAGIC\"\n            )\n            endian = swap_endian(endian)\n", "R-13.10", control=True, why="seeded C13_k"),
     K("c13-keep-trr-magic-test-inverted", GROMACS, "    if magic == _GROMACS_MAGIC:\n        pass\n    else:\n        magic = swap_integer(magic)\n        if not magic == _GROMACS_MAGIC:\n            logger.critical(\n                \"TRR file might be inconsistent! Could find _GROMACS_MAGIC\"\n            )\n        endian = swap_endian(endian)\n", "    if magic != _GROMACS_MAGIC:\n        if swap_integer(magic) != _GROMACS_MAGIC:\n            logger.critical(\n                \"TRR file might be inconsistent! Could find _GROMACS_MAGIC\"\n            )\n        endian = swap_endian(endian)\n"),
